@@ -468,19 +468,6 @@ def elNeg (f : Sc → Option Sc) (e : El) : Option El :=
   | .sc s => (f s).map .sc
   | .arr a => (allSome (a.data.map f)).map fun d => .arr ⟨a.shape, d⟩
 
-/-- Python `-x` in generated code -/
-def pyNeg (a : NV) : Res :=
-  match a with
-  | .unmod => .ok .unmod
-  | .undef => .raised
-  | .sc s => .ok (.sc (scNegExact s))
-  | .arr a => match allSome (a.data.map scNegNp) with
-    | some d => .ok (.arr ⟨a.shape, d⟩)
-    | none => .raised
-  | .obj xs => match allSome (xs.map (elNeg (fun s => some (scNegExact s)))) with
-    | some es => .ok (.obj es)
-    | none => .raised
-
 /-- same shape for every element that is a non-empty array (then `np.asarray(…, dtype=object)` in
     `vec_fn` builds a rank-2 object array, which is outside the model) -/
 def objStacks (xs : List El) : Bool :=
@@ -490,20 +477,36 @@ def objStacks (xs : List El) : Bool :=
     | .sc _ => false
   | _ => false
 
+/-- negation of an array: `np.negative` element-wise; for an object array element by element
+    (the interpreter's `vec_fn` rebuilds the array with `np.asarray(…, dtype=object)`, which is a
+    rank-2 object array when the elements stack: outside the model on both paths) -/
+def negList (a : NV) : Res :=
+  match a with
+  | .arr a => (match allSome (a.data.map scNegNp) with
+    | some d => .ok (.arr ⟨a.shape, d⟩)
+    | none => .raised)
+  | .obj xs =>
+    if objStacks xs then .ok .unmod
+    else (match allSome (xs.map (elNeg scNegNp)) with
+      | some es => .ok (.obj es)
+      | none => .raised)
+  | _ => .raised
+
+/-- Python `-x` in generated code -/
+def pyNeg (a : NV) : Res :=
+  match a with
+  | .unmod => .ok .unmod
+  | .undef => .raised
+  | .sc s => .ok (.sc (scNegExact s))
+  | a => negList a
+
 /-- monads.py `eval_monad_negate`: vec_fn(a, np.negative ∘ kg_asarray) -/
 def kgNegate (a : NV) : Res :=
   match a with
   | .unmod => .ok .unmod
   | .undef => .raised
   | .sc s => optRes ((scNegNp s).map .sc)
-  | .arr a => match allSome (a.data.map scNegNp) with
-    | some d => .ok (.arr ⟨a.shape, d⟩)
-    | none => .raised
-  | .obj xs =>
-    if objStacks xs then .ok .unmod
-    else match allSome (xs.map (elNeg scNegNp)) with
-      | some es => .ok (.obj es)
-      | none => .raised
+  | a => negList a
 
 /-! ### Over and Scan-Over (adverbs.py) -/
 
@@ -533,13 +536,17 @@ def scan1 (g : NV → NV → Res) : List NV → List Res
 /-- `ufunc.reduce(a)` along axis 0 for a non-empty list: elements of an object array are combined
     with the Python operator, rows of a numeric array with the ufunc -/
 def ufuncReduce (op : AOp) (a : NV) : Res :=
-  match a with
-  | .arr _ => fold1 (npBin op) (items a)
-  | .obj _ => (match op with
-      | .max => .ok .unmod
-      | .min => .ok .unmod
-      | _ => fold1 (pyBin op) (items a))
-  | _ => .raised
+  match items a with
+  | [] => .raised
+  | [x] => .ok x
+  | xs =>
+    match a with
+    | .arr _ => fold1 (npBin op) xs
+    | .obj _ => (match op with
+        | .max => .ok .unmod
+        | .min => .ok .unmod
+        | _ => fold1 (pyBin op) xs)
+    | _ => .raised
 
 /-- rebuild an array / object array from the results of a scan over the items of `a` -/
 def restack (a : NV) (rs : List Res) : Res :=
@@ -578,14 +585,13 @@ def aopOf (op : String) : Option AOp :=
 def kgOver (op : String) (a : NV) : Res :=
   if a == .unmod then .ok .unmod
   else if isAtom a then .ok a
+  else if op = "+" then ufuncReduce .add a        -- `len(a) == 1 -> a[0]` is ufuncReduce's one-item case
+  else if op = "*" then ufuncReduce .mul a
+  else if op = "|" then ufuncReduce .max a        -- np.max (rank 1) / functools.reduce(np.maximum) (rank >= 2)
+  else if op = "&" then ufuncReduce .min a
   else match items a with
     | [x] => .ok x
-    | _ =>
-      if op = "+" then ufuncReduce .add a
-      else if op = "*" then ufuncReduce .mul a
-      else if op = "|" then ufuncReduce .max a     -- np.max (rank 1) / functools.reduce(np.maximum) (rank >= 2)
-      else if op = "&" then ufuncReduce .min a
-      else .ok .unmod
+    | _ => .ok .unmod
 
 /-- adverbs.py `eval_adverb_scan_over` -/
 def kgScan (op : String) (a : NV) : Res :=
@@ -618,7 +624,7 @@ def kgMonad (op : String) (a : NV) : Res :=
 def npReduceInit (op : AOp) (a : NV) : Res :=
   match a with
   | .unmod => .ok .unmod
-  | .undef => .ok .unmod
+  | .undef => .ok .undef
   | .sc s => .ok (.sc s)
   | a => if isAtom a then .raised else ufuncReduce op a
 
@@ -636,7 +642,7 @@ def npAccumulate (op : AOp) (a : NV) : Res :=
 def npReduceIdent (op : AOp) (a : NV) : Res :=
   match a with
   | .unmod => .ok .unmod
-  | .undef => .ok .unmod
+  | .undef => .ok .undef
   | .sc s => .ok (.sc s)
   | a =>
     if isAtom a then
@@ -780,6 +786,11 @@ def irToPy (T : BTables) : IR → Option PyExpr
 
 def irToSource (T : BTables) (ir : IR) : Option String := (irToPy T ir).map PyExpr.render
 
+/-- position of a symbol in `var_refs` -/
+def findRef : List String → String → Option Nat
+  | [], _ => none
+  | x :: r, s => if x = s then some 0 else (findRef r s).map (· + 1)
+
 /-- compiler.py `_ast_to_ir`; `refs` is `var_refs` (position = parameter number), `admit` the
     compile-time test on a variable (its current value's type, or nothing after the operand check
     moved to the call) -/
@@ -787,7 +798,7 @@ def astToIR (admit : String → Bool) : Expr → List String → Option (IR × L
   | .lit v t, refs => some (.literal v t, refs)
   | .var s, refs =>
     if admit s then
-      match refs.idxOf? s with
+      match findRef refs s with
       | some i => some (.var i, refs)
       | none => some (.var refs.length, refs ++ [s])
     else none
@@ -942,17 +953,27 @@ def scInRange : Sc → Bool
   | .int n => inRange n
   | .real _ => true
 
+def resVal : Res → NV
+  | .ok v => v
+  | .raised => .unmod
+
+/-- the admissibility condition of a dyadic node, on the operand values -/
+def dyadAdm (op : String) (a b : NV) : Bool :=
+  match aopOf op, a, b with
+  | some o, .sc x, .sc y => scInRange x && scInRange y && scInRange (scExact o x y)
+  | _, _, _ => true
+
+/-- the admissibility condition of a monadic node -/
+def monadAdm (a : NV) : Bool :=
+  match a with
+  | .sc x => scInRange x && scInRange (scNegExact x)
+  | _ => true
+
 /-- the node's own scalar arithmetic stays inside int64 (Python integers are unbounded, numpy's
     are not) -/
 def admNode (env : Env) : Expr → Bool
-  | .dyad op l r =>
-    match aopOf op, Interp.eval env l, Interp.eval env r with
-    | some o, .ok (.sc a), .ok (.sc b) => scInRange a && scInRange b && scInRange (scExact o a b)
-    | _, _, _ => true
-  | .monad _ x =>
-    match Interp.eval env x with
-    | .ok (.sc a) => scInRange a && scInRange (scNegExact a)
-    | _ => true
+  | .dyad op l r => dyadAdm op (resVal (Interp.eval env l)) (resVal (Interp.eval env r))
+  | .monad _ x => monadAdm (resVal (Interp.eval env x))
   | _ => true
 
 def vars : Expr → List String
